@@ -2778,6 +2778,11 @@ class AfterAfterFramesetPhase(Phase):
 
     def processCharacters(self, token):
         self.parser.parseError("expected-eof-but-got-char")
+        # Only the non-space characters are ignored
+        data = "".join([c for c in token["data"] if c in spaceCharacters])
+        if data:
+            self.processSpaceCharacters({"type": tokenTypes["SpaceCharacters"],
+                                         "data": data})
 
     def startTagHtml(self, token):
         return self.parser.phases["inBody"].processStartTag(token)
